@@ -47,10 +47,24 @@ Theorem C19_transform_real_total : forall t a,
 Proof. exact transform_real_total. Qed.
 Print Assumptions C19_transform_real_total.
 
-(* AdjustBrightness on the real arithmetic: PARTIAL - the 17 ANSI colour names
-   x a lattice of bounds (step 0.008 over 0..1 for both); all colours and all
-   bounds would need an error analysis of the float arithmetic.  The harness
-   ties the rest bit-exactly (thorough: every colour). *)
+(* AdjustBrightness on the real arithmetic: PARTIAL.  Proved: for the 17 ANSI
+   colour names (the colours _color_to_rgb looks up) and every pair of bounds
+   on the lattice 0, 0.004, ..., 1.0 (251 x 251 pairs; mn, mx in thousandths)
+   the new colour exists and is six hexadecimal digits (1.07 M evaluations on
+   the kernel's floats).
+   MISSING for `forall mn mx, kernel_ok (adj_real mn mx)` (the hypothesis the
+   general transformation theorems keep):
+     (a) the other 2^24 - 17 colours (six hex digits) for each bound pair -
+         2^24 evaluations (~50 s of vm_compute) PER pair;
+     (b) the bound pairs off the lattice - in the cases bounds are the floats
+         n / 1000.0, i.e. 1001 x 1001 pairs; arbitrary Python floats in [0, 1]
+         are a continuum;
+     (c) hence all of it needs a rounding-error analysis of
+         rgb_to_hls -> min + (max - min) * l -> hls_to_rgb -> int(c * 255)
+         showing 0 <= c * 255 < 256 (a float specification such as
+         FloatAxioms/Flocq, excluded here), or 2^24 x 10^6 evaluations.
+   The real code is checked on (a) for one pair per red plane (thorough op 22,
+   every colour, bit-exact with this model) and on a 9 M lattice (sweep_kernels). *)
 Theorem C19_adjust_kernel_ansi_partial : forall name r g b mn mx,
   assoc name ansi_colors_to_rgb = Some (r, g, b) -> In mn lattice -> In mx lattice ->
   exists v, adj_real mn mx name = Some v /\ hex6_b v = true.
